@@ -45,6 +45,12 @@ CHECKS = {
  "C12": dict(engine="pure", technique="TLA+ decision spec (CliIgnoreFlags.tla) enumerated by TLC; all 448 cases replayed through the CLI's argv parser and WatchexecFilterer",
    text="CliIgnoreFlags.tla gives each of the six flags its documented meaning (the set of ignore sources it removes; shorthands expanded by a Normalise step), TLC checks RemovesExactly / Monotone / ShorthandMeaning and enumerates all 64 flag sets x 7 explicit options with the expected verdict of nine probe events; every case is run as a real command line (argv -> Args::parse -> normalise -> WatchexecFilterer::new -> check_event) against a project with a .gitignore, a .ignore, a global git ignore, a global watchexec ignore and a file hit by the built-in defaults. Complete enumeration in both tiers.",
    ref="6 C12", note="Trusted: TLC; the help text of each flag is the reference. HOME/XDG_CONFIG_HOME are faked once per process; argv goes through the cfg(watchexec_verif) verif module of the CLI library."),
+ "C16": dict(engine="pure", technique="TLA+ decision spec (EventJson.tla: Doc / Decode tables, RoundTrip and NeverAnotherKind checked by TLC); every shape and every field subset replayed through serde",
+   text="EventJson.tla gives the documented JSON object of every tag shape (all 41 filesystem kind names, file types, sources, first-class and custom signals, the seven completion dispositions with the fields each carries) and the decoder as a decision table; TLC checks Decode(Doc(t)) = t for every shape, that a tag object of a known kind never decodes to another kind, and enumerates 77 shapes plus 19456 tag objects (every known kind x every subset of the ten optional fields, with all values of the fields that kind looks at); the real serde implementation must produce exactly the documented object for 8 concretisations per shape (paths with spaces, quotes, newlines and non-ASCII text, u32 pid bounds, i32/i64 code bounds, custom signal numbers), round-trip it inside events of 0-4 tags with metadata, and decode every malformed object to the tag the table says.",
+   ref="6 C16", note="Trusted: TLC, serde_json. The spec is a table; the strength is exhaustiveness over it. A crash of the code under test (e.g. an unchecked NonZero) is pinned on the case that caused it and reported as a violation."),
+ "C17": dict(engine="pure", technique="TLA+ reference semantics (PathSummary.tla) with JoinBack / CommonIsAbove / Silent checked by TLC; enumerated batches replayed through summarise_events_to_env and the CLI emit helpers",
+   text="PathSummary.tla defines the environment summary declaratively (common path = longest common prefix of the trunks, each variable = the set of suffixes of the paths of events carrying a kind of its class, WRITTEN also from close-after-write) and the line format as a sequence; TLC checks that joining the common path with any entry gives back a path of an event of that kind, that the common path is above every path and that events without path or kind contribute nothing, then enumerates every single event over a pool of 8 paths x 0-2 kinds and seeded samples of 2-3 events; the real library function, the CLI's emits_to_environment and events_to_simple_format must give exactly these sets (byte-sorted and unique - checked on the real string), common path and lines.",
+   ref="6 C17", note="Trusted: TLC. Paths are abstract component sequences (the functions do not touch the filesystem); names containing ':' are excluded; reading the variables from a real child's environment is not part of the quick tier."),
  "C19": dict(engine="pure", technique="TLA+ table spec (Signals.tla) enumerated by TLC; every row replayed through Signal::from_str / Display / to_nix and ProcessEnd::from(ExitStatus)",
    text="Signals.tla holds the platform signal table, the first-class signals, the three spellings, the Windows control names with their precedence (TLC checks that STOP is the only clash) and the decoding of wait statuses; all 696 rows (every signal x spelling x letter case, every control name, display round trips of first-class and custom signals, exit codes 0-255, terminating signals with and without the core bit) are run through the real conversions and compared by OS signal number. Complete enumeration in both tiers; the spec is a table, the strength is its exhaustiveness.",
    ref="6 C19", note="Trusted: TLC; Linux numbering; nix's list of signals. The --map-signal option parser is not covered."),
